@@ -3,6 +3,7 @@
 package c15
 
 import (
+	"bytes"
 	"fmt"
 	"sort"
 	"strings"
@@ -10,6 +11,8 @@ import (
 	"github.com/anishathalye/porcupine"
 	"github.com/lugu/qiloop/bus"
 	"github.com/lugu/qiloop/bus/directory"
+	"github.com/lugu/qiloop/bus/net"
+	"github.com/lugu/qiloop/type/basic"
 	"github.com/lugu/qiloop/type/object"
 
 	"verif/rt/vrt"
@@ -613,6 +616,156 @@ func checkEvents(got []string) {
 	}
 }
 
+// updateLocal: services registered by the hosting server itself (the
+// directory and two more, which the namespace registers with the server's
+// own address list) and one registered remotely; a remote client updates the
+// endpoints of each of them in turn: exactly the updated record changes.
+func updateLocal() {
+	d := startDirectory()
+	p := d.client()
+	for _, name := range []string{"c", "e"} {
+		if _, err := d.srv.NewService(name, probe.ProbeObject(probe.New(name))); err != nil {
+			vrt.Failf("harness/new-service", "%v", err)
+			return
+		}
+	}
+	rid, err := p.RegisterService(info("r", 0, "tcp://remote"))
+	if err == nil {
+		err = p.ServiceReady(rid)
+	}
+	if err != nil {
+		vrt.Failf("harness/remote-register", "%v", err)
+		return
+	}
+	vrt.Quiesce()
+	target := vrt.ChooseFree(4, "which service is updated")
+	vrt.Explore()
+	before, err := p.Services()
+	if err != nil || len(before) != 4 {
+		vrt.Failf("harness/listing", "%v %v", before, err)
+		return
+	}
+	victim := before[target]
+	upd := victim
+	upd.Endpoints = []string{"tcp://moved:1"}
+	uerr := p.UpdateServiceInfo(upd)
+	vrt.Quiesce()
+	after, err := p.Services()
+	if err != nil {
+		vrt.Failf("listing-failed", "%v", err)
+		return
+	}
+	if len(after) != len(before) {
+		vrt.Failf("listing-differs/after-update", "updating the endpoints of service %d changed the number of services: %s -> %s", victim.ServiceId, listing(before), listing(after))
+		return
+	}
+	for i := range before {
+		want := before[i]
+		if i == target && uerr == nil {
+			want.Endpoints = []string{"tcp://moved:1"}
+		}
+		if fmt.Sprint(after[i].ServiceId, after[i].Name, after[i].Endpoints) != fmt.Sprint(want.ServiceId, want.Name, want.Endpoints) {
+			vrt.Failf("update-touches-another-record", "updateServiceInfo(%d, endpoints=[tcp://moved:1]) answered %v; listing before: %s; after: %s (record %d expected %v)", victim.ServiceId, uerr, listing(before), listing(after), want.ServiceId, want.Endpoints)
+			break
+		}
+		if one, err := p.Service(want.Name); err != nil || fmt.Sprint(one.Endpoints) != fmt.Sprint(want.Endpoints) {
+			vrt.Failf("update-touches-another-record/lookup", "after updateServiceInfo(%d), service(%q) answers %v, %v; expected endpoints %v", victim.ServiceId, want.Name, one.Endpoints, err, want.Endpoints)
+			break
+		}
+	}
+	// a service registered by the hosting server afterwards still gets the server's own address
+	if svc, err := d.srv.NewService("late", probe.ProbeObject(probe.New("late"))); err == nil {
+		if one, err := p.Service("late"); err != nil || fmt.Sprint(one.Endpoints) != fmt.Sprint(before[0].Endpoints) {
+			vrt.Failf("update-touches-another-record/later-registration", "a service the hosting server registered after updateServiceInfo(%d) is advertised with %v (%v); the server's addresses are %v", victim.ServiceId, one.Endpoints, err, before[0].Endpoints)
+		}
+		_ = svc
+	}
+	fx.Settle()
+	vrt.Observe("target=%d err=%v", target, uerr != nil)
+}
+
+// eventBurst: a raw subscriber of serviceAdded / serviceRemoved stops reading
+// (finite send buffer towards it) while the hosting server makes seventy
+// services ready and unregisters half of them; then it reads again. Once
+// everything has settled every transition has its event on that connection,
+// exactly once and in order, and the well-behaved subscriber has them too -
+// however the emission copes with the stalled subscriber (blocking, queueing),
+// it may not lose a transition.
+func eventBurst() {
+	d := startDirectory()
+	p := d.client()
+	ev := d.watch()
+	raw := d.w.RawPeer()
+	raw.StartDrain()
+	if !raw.Authenticate("", "") {
+		vrt.Failf("harness/auth", "raw subscriber cannot authenticate")
+		return
+	}
+	reg := func(signal uint32, handler uint64) []byte {
+		var b bytes.Buffer
+		basic.WriteUint32(1, &b)
+		basic.WriteUint32(signal, &b)
+		basic.WriteUint64(handler, &b)
+		return b.Bytes()
+	}
+	raw.Send(net.Call, 1, 1, 0, raw.NextID(), reg(ev.addedID, 501))
+	raw.Send(net.Call, 1, 1, 0, raw.NextID(), reg(ev.remID, 502))
+	vrt.Quiesce()
+	// the raw subscriber stops reading; the server can buffer 300 bytes towards it
+	raw.Gate = make(chan struct{})
+	raw.Raw.Peer().Cap = 300
+	vrt.Explore()
+	const n = 70
+	var svcs []bus.Service
+	w1 := vrt.GoWorker("burst", func() {
+		for i := 0; i < n; i++ {
+			svc, err := d.srv.NewService(fmt.Sprintf("s%02d", i), probe.ProbeObject(probe.New("x")))
+			if err != nil {
+				vrt.Failf("registration-lost/burst", "NewService(s%02d) failed: %v", i, err)
+				return
+			}
+			svcs = append(svcs, svc)
+		}
+		for i := 0; i < len(svcs); i += 2 {
+			svcs[i].Terminate()
+		}
+	})
+	vrt.Quiesce() // the burst is over, or stuck behind the stalled subscriber
+	close(raw.Gate)
+	vrt.Quiesce()
+	fx.Settle(w1)
+	checkEvents(ev.got)
+	count := func(got []string) (added, removed int) {
+		for _, e := range got {
+			if strings.HasPrefix(e, "added") {
+				added++
+			} else {
+				removed++
+			}
+		}
+		return
+	}
+	added, removed := count(ev.got)
+	rawAdded, rawRemoved := 0, 0
+	for _, f := range raw.Got {
+		if f.Hdr.Type == net.Event && f.Hdr.Action == ev.addedID {
+			rawAdded++
+		}
+		if f.Hdr.Type == net.Event && f.Hdr.Action == ev.remID {
+			rawRemoved++
+		}
+	}
+	wantRemoved := (len(svcs) + 1) / 2
+	if added != len(svcs) || removed != wantRemoved {
+		vrt.Failf("events-differ/burst", "%d services became ready and %d of them were unregistered while another subscriber was not reading: the well-behaved subscriber received %d serviceAdded and %d serviceRemoved events", len(svcs), wantRemoved, added, removed)
+	}
+	if rawAdded != len(svcs) || rawRemoved != wantRemoved {
+		vrt.Failf("events-differ/burst-stalled-subscriber", "%d services became ready and %d were unregistered while this subscriber was not reading; once it read again it received %d serviceAdded and %d serviceRemoved events", len(svcs), wantRemoved, rawAdded, rawRemoved)
+	}
+	listingVsHistory(p, ev, map[uint32]bool{})
+	vrt.Observe("added=%d removed=%d raw=%d/%d", added, removed, rawAdded, rawRemoved)
+}
+
 // listingVsHistory: once everything has settled, the listing must be explained
 // by what happened. (1) An identifier whose unregistration was acknowledged is
 // not listed: ids are never handed out twice, so whichever of staging /
@@ -897,6 +1050,10 @@ func init() {
 		Doc: "remote register+ready of a || local Server.NewService(a|c) + Terminate", MustFlag: []string{"both-registered"}})
 	reg.Register(&reg.Scenario{Property: "C15", Name: "local-vs-remote-unregister", Body: localRemote(true, true), Quick: 2, Thorough: 3,
 		Doc: "as local-vs-remote (statement level) while another remote client unregisters identifiers 2 and 3: no serviceRemoved event precedes the serviceAdded event of the same identifier on the subscriber's connection, each at most once"})
+	reg.Register(&reg.Scenario{Property: "C15", Name: "burst-of-seventy-transitions", Body: eventBurst, Quick: 0, Thorough: 0,
+		Doc: "seventy services become ready and thirty-five are unregistered while one (raw) subscriber has stopped reading behind a finite send buffer, then reads again: one event per transition for every subscriber, listing and events agree"})
+	reg.Register(&reg.Scenario{Property: "C15", Name: "update-among-local-services", Body: updateLocal, Quick: 0, Thorough: 1,
+		Doc: "the directory, two services registered by the hosting server (same address list) and one registered remotely; the endpoints of each in turn are updated by a remote client: exactly that record changes, in listings, lookups and for later local registrations"})
 	reg.Register(&reg.Scenario{Property: "C15", Name: "staged-local-ready-vs-remote-unregister", Body: readyRace(false), Quick: 2, Thorough: 3,
 		Doc: "the hosting server registers a service (Reserve, activation, Enable: local path) while a remote client unregisters the identifier it gets: an acknowledged unregistration leaves nothing listed, listing and events agree", MustFlag: []string{"both-succeeded", "local-only"}})
 	reg.Register(&reg.Scenario{Property: "C15", Name: "staged-local-ready-vs-remote-ready", Body: readyRace(true), Quick: 2, Thorough: 3,
